@@ -1240,6 +1240,7 @@ impl Gen {
         }
         self.move_price(h, r, v, !buy, pct.max(1_000));
         let n = self.rng.range(78, 110);
+        r.count("macro:busy-market-runs");
         let others: Vec<&'static str> = TRADERS.iter().cloned().filter(|t| *t != victim && *t != "whale").collect();
         for i in 0..n {
             let secs = self.rng.range(3, 8);
